@@ -192,8 +192,8 @@ type c26Conc struct {
 }
 
 func c26Concs(seed int64) []c26Conc {
-	base := map[string]string{"x": "x", "re": "y.*", "restar": ".*", "esc": "a\"b\\c\n\t'd", "utf8": "é ☃ 日本"}
-	alt := map[string]string{"x": "some value", "re": "(a|b)+", "restar": "z*", "esc": "`tick` \\n", "utf8": "\U0001F600"}
+	base := map[string]string{"empty": "", "x": "x", "re": "y.*", "restar": ".*", "esc": "a\"b\\c\n\t'd", "utf8": "é ☃ 日本"}
+	alt := map[string]string{"empty": "", "x": "some value", "re": "(a|b)+", "restar": "z*", "esc": "`tick` \\n", "utf8": "\U0001F600"}
 	n1 := map[string]string{"u.l": "u.l", "u.m": "u.m"}
 	n2 := map[string]string{"u.l": "label with space", "u.m": "métrique-1"}
 	n3 := map[string]string{"u.l": "1l", "u.m": "on"}
